@@ -8,6 +8,7 @@ package harness
 
 import (
 	"fmt"
+	"math"
 	"math/rand/v2"
 	"strings"
 	"time"
@@ -565,6 +566,23 @@ func c16Case(r *Result, m *Model, env *engineEnv, rng *rand.Rand, n int) {
 			r.count("mut:" + strings.Split(mu, "@")[0])
 		}
 	}
+	// a request that passes the plugin's validation but cannot be serialised: the plan is well formed, the
+	// store must refuse it, and Submit must then leave no trace
+	unencodable := false
+	if rng.IntN(12) == 0 && len(muts) == 0 {
+		for _, o := range collectObjs(p) {
+			if o.kind == "action" {
+				if rq, ok := o.act.Req.(Req); ok {
+					rq.N = math.NaN()
+					o.act.Req = rq
+					unencodable = true
+					muts = append(muts, "unencodable@action")
+					r.count("mut:unencodable")
+					break
+				}
+			}
+		}
+	}
 	var subject *workflow.Plan = p
 	if rng.IntN(200) == 0 {
 		subject = nil
@@ -596,6 +614,15 @@ func c16Case(r *Result, m *Model, env *engineEnv, rng *rand.Rand, n int) {
 	if panicked != "" {
 		r.finding(Finding{Kind: "monitor", Clause: "C16.submit_panics", Features: map[string]any{"nilChild": subject != nil && hasNilChild(subject), "nilPlan": subject == nil},
 			Text: "Submit panicked instead of rejecting: " + panicked, Case: caseDesc, Model: want})
+		return
+	}
+	if unencodable {
+		if err == nil {
+			r.finding(Finding{Kind: "monitor", Clause: "C16.unstorable_plan_rejected", Text: "Submit accepted a plan whose request cannot be serialised", Case: caseDesc})
+		} else if !jsonEq(before, after) {
+			r.finding(Finding{Kind: "monitor", Clause: "C16.reject_leaves_no_trace", Features: map[string]any{"cause": "storage"}, Text: "a Submit refused by the store left rows behind",
+				Case: caseDesc, Observed: map[string]any{"before": before, "after": after}})
+		}
 		return
 	}
 	if got != want && !(got == "err:other" && strings.HasPrefix(want, "err:")) {
